@@ -18,6 +18,8 @@ use crate::{
     },
 };
 
+pub mod extra;
+
 macro_rules! layout {
     ($name:ident, $domain:expr, $n:expr, $unwind:expr) => {
         #[kani::proof]
@@ -91,3 +93,162 @@ pub fn c08__remainder_path_two_positions() {
     kani::cover!(rem[0] == F17(0) && rem[1] == F17(0), "VERIF-COVER lower-degree polynomial");
     core::mem::forget((ch, v));
 }
+
+// ---------------------------------------------------------------------------------------------------------------------
+// folding algebra: the real apply_drp (degree-respecting projection) against folding in coefficient form
+// ---------------------------------------------------------------------------------------------------------------------
+use math::{FieldElement, StarkField};
+
+fn ev_poly(c: &[F17], x: F17) -> F17 {
+    let mut acc = F17::ZERO;
+    let mut i = c.len();
+    while i > 0 {
+        i -= 1;
+        acc = acc * x + c[i];
+    }
+    acc
+}
+fn pow(b: F17, e: usize) -> F17 {
+    let mut r = F17::ONE;
+    let mut i = 0;
+    while i < e {
+        r = r * b;
+        i += 1;
+    }
+    r
+}
+
+//@ harness=c08__fold2_algebra tier=thorough kind=prove cap=3600 :: real fri::folding::apply_drp, folding factor 2, domain 8 with offset GENERATOR over F17: for EVERY polynomial f of degree <= 3 and EVERY alpha, folding the transposed evaluations equals evaluating (f0 + alpha f1) + (f2 + alpha f3) y on the folded domain (offset^2, 4 points) - the identity an honest prover/verifier pair relies on at every layer
+#[kani::proof]
+#[kani::unwind(10)]
+#[kani::stub(alloc::fmt::format, no_fmt)]
+pub fn c08__fold2_algebra() {
+    let f: [F17; 4] = kani::any();
+    let alpha: F17 = kani::any();
+    let g = F17::get_root_of_unity(3);
+    let off = F17::GENERATOR;
+    let mut evals = [F17::ZERO; 8];
+    let mut i = 0;
+    while i < 8 {
+        evals[i] = ev_poly(&f, off * pow(g, i));
+        i += 1;
+    }
+    let rows = transpose_slice::<F17, 2>(&evals);
+    let folded = fri::folding::apply_drp(&rows, off, alpha);
+    assert_eq!(folded.len(), 4);
+    let fp = [f[0] + alpha * f[1], f[2] + alpha * f[3]];
+    let g2 = g * g;
+    let mut i = 0;
+    while i < 4 {
+        assert!(folded[i] == ev_poly(&fp, off * off * pow(g2, i)));
+        i += 1;
+    }
+    kani::cover!(f[3] != F17::ZERO && alpha != F17::ZERO, "VERIF-COVER");
+    core::mem::forget((rows, folded));
+}
+
+//@ harness=c08__fold4_algebra tier=thorough kind=prove cap=7200 :: same for folding factor 4, domain 16 (the whole multiplicative group of F17, offset GENERATOR): every f of degree <= 7, every alpha: apply_drp == evaluations of sum_j alpha^j f_{4i+j} y^i on the folded domain (offset^4, 4 points)
+#[kani::proof]
+#[kani::unwind(18)]
+#[kani::stub(alloc::fmt::format, no_fmt)]
+pub fn c08__fold4_algebra() {
+    let f: [F17; 8] = kani::any();
+    let alpha: F17 = kani::any();
+    let g = F17::get_root_of_unity(4);
+    let off = F17::GENERATOR;
+    let mut evals = [F17::ZERO; 16];
+    let mut i = 0;
+    while i < 16 {
+        evals[i] = ev_poly(&f, off * pow(g, i));
+        i += 1;
+    }
+    let rows = transpose_slice::<F17, 4>(&evals);
+    let folded = fri::folding::apply_drp(&rows, off, alpha);
+    assert_eq!(folded.len(), 4);
+    let a2 = alpha * alpha;
+    let a3 = a2 * alpha;
+    let fp = [f[0] + alpha * f[1] + a2 * f[2] + a3 * f[3], f[4] + alpha * f[5] + a2 * f[6] + a3 * f[7]];
+    let g4 = pow(g, 4);
+    let off4 = pow(off, 4);
+    let mut i = 0;
+    while i < 4 {
+        assert!(folded[i] == ev_poly(&fp, off4 * pow(g4, i)));
+        i += 1;
+    }
+    kani::cover!(f[7] != F17::ZERO && alpha != F17::ZERO, "VERIF-COVER");
+    core::mem::forget((rows, folded));
+}
+
+// ---------------------------------------------------------------------------------------------------------------------
+// one folding layer through the real FriVerifier (domain 8 -> 4, remainder of 2 coefficients)
+// ---------------------------------------------------------------------------------------------------------------------
+use fri::VerifierError;
+
+use crate::{
+    c03::Verifier,
+    model::fri::{Coin, GV_LEAVES, GV_LEN, GV_ROOT},
+};
+
+/// FriVerifier for max degree 3, blowup 2, folding 2, remainder degree 1: one layer
+pub fn one_layer_verifier(ch: &mut Ch<GV>, alpha: F17) -> Result<Verifier, VerifierError> {
+    let mut coin = Coin { alphas: [alpha, alpha], next: 0 };
+    Verifier::new(ch, &mut coin, FriOptions::new(2, 2, 1), 3)
+}
+
+//@ harness=c08__one_layer_honest_pos1 tier=thorough kind=prove cap=7200 :: real FriVerifier with ONE folding layer (domain 8, folding 2, F17, ideal hasher / ideal vector commitment), query position 1: for every polynomial of degree <= 3 and every alpha the honest transcript (committed transposed evaluations, remainder = interpolation of the folded evaluations as the prover does it) is accepted
+#[kani::proof]
+#[kani::unwind(10)]
+#[kani::stub(alloc::fmt::format, no_fmt)]
+pub fn c08__one_layer_honest_pos1() {
+    one_layer_honest(1);
+}
+//@ harness=c08__one_layer_honest_pos6 tier=thorough kind=prove cap=7200 :: same for query position 6 (second half of the domain: the opened row's second entry)
+#[kani::proof]
+#[kani::unwind(10)]
+#[kani::stub(alloc::fmt::format, no_fmt)]
+pub fn c08__one_layer_honest_pos6() {
+    one_layer_honest(6);
+}
+//@ harness=c08__one_layer_honest_anypos tier=thorough kind=prove cap=7200 :: same with a symbolic query position 0..8
+#[kani::proof]
+#[kani::unwind(10)]
+#[kani::stub(alloc::fmt::format, no_fmt)]
+pub fn c08__one_layer_honest_anypos() {
+    let pos: usize = kani::any();
+    kani::assume(pos < 8);
+    one_layer_honest(pos);
+}
+fn one_layer_honest(pos: usize) {
+    ih_reset();
+    let f: [F17; 4] = kani::any();
+    let alpha: F17 = kani::any();
+    let fpos = pos % 4;
+    // the opened row of the layer: evaluations at x and -x, x = 3 * g^fpos (positions fpos and fpos + 4)
+    let row = [ev_poly(&f, domain8(fpos)), ev_poly(&f, domain8(fpos + 4))];
+    // remainder as the prover builds it: the folded evaluations are interpolated over the domain offset * (g^2)^i with the
+    // SAME offset, i.e. h(X) = fp(offset * X) for fp = (f0 + alpha f1) + (f2 + alpha f3) Y; sent in reversed order
+    let off = F17(3);
+    let rem = [(f[2] + alpha * f[3]) * off, f[0] + alpha * f[1]];
+    let layer_root: D64v = kani::any();
+    unsafe {
+        GV_ROOT = layer_root;
+        GV_LEN = 4;
+        GV_LEAVES = kani::any();
+        let d = H::hash_elements(&row);
+        kani::assume(GV_LEAVES[fpos] == d.0);
+    }
+    let mut ch = Ch::<GV> {
+        commitments: vec![crate::model::hashers::D64(layer_root), H::hash_elements(&rem)],
+        layer_queries: vec![row.to_vec()],
+        remainder: rem.to_vec(),
+        num_partitions: 1,
+        _v: PhantomData,
+    };
+    let v = one_layer_verifier(&mut ch, alpha).unwrap();
+    let claimed = if pos < 4 { row[0] } else { row[1] };
+    let res = v.verify(&mut ch, &[claimed], &[pos]);
+    assert!(res.is_ok());
+    kani::cover!(f[3] != F17::ZERO && alpha != F17::ZERO, "VERIF-COVER");
+    core::mem::forget((ch, v));
+}
+type D64v = u64;
